@@ -178,7 +178,9 @@ struct GSpec
         return {{"variables", n}, {"components", k}, {"hierarchy", hier ? "chain c0>c1>c2" : "flat siblings"}, {"component_of_variable", place}, {"edges", e}};
     }
 };
-uint64_t graphBlock(int n, int k) { return (2 * ipow(k, n)) << npairs(n); }
+// the hierarchy (which cannot influence the answers, only the validity of the model) is varied for n <= 4 only
+uint64_t hierarchies(int n) { return n <= 4 ? 2 : 1; }
+uint64_t graphBlock(int n, int k) { return (hierarchies(n) * ipow(k, n)) << npairs(n); }
 uint64_t graphCount() { uint64_t t = 0; for (int n = 1; n <= MAXN; ++n) for (int k = 2; k <= 3; ++k) t += graphBlock(n, k); return t; }
 GSpec graphAt(uint64_t i)
 {
@@ -190,7 +192,7 @@ GSpec graphAt(uint64_t i)
             g.n = n; g.k = k;
             g.edges = uint32_t(r.take(1ull << npairs(n)));
             for (int v = 0; v < n; ++v) g.place.push_back(int(r.take(k)));
-            g.hier = int(r.take(2));
+            g.hier = int(r.take(hierarchies(n)));
             return g;
         }
         i -= b;
